@@ -225,7 +225,9 @@ def run(ctx):
     if ctx.replay and ctx.replay.get("pair"):
         pairs = [ctx.replay["pair"]] + pairs[:20]
 
-    reqs = cases + pairs
+    # one mg.F value Run concurrently with different contexts (faithful call: "plus the context ... where declared")
+    conc = [{"op": "concrun", "raw": {"Workers": 8, "Rounds": 3000 if ctx.quick else 60000}}]
+    reqs = cases + pairs + conc
     inp = "\n".join(json.dumps({k: v for k, v in r.items() if k != "kind"}) for r in reqs) + "\n"
     rc, out, err = sh([binp], input=inp.encode(), timeout=600)
     if rc != 0:
@@ -321,5 +323,12 @@ def run(ctx):
     for c, a in list(zip(cases, answers))[:3]:
         ctx.sample({"sig": sigs[c["fn"]] if c["fn"] >= 0 else "non-function", "args": c["args"], "kind": c["kind"], "panic": a["panic"]})
     ctx.sample({"pair": pairs[0], "answer": answers[len(cases)]})
+    # concurrent Runs of one mg.F value
+    ca = answers[len(cases) + len(pairs)]
+    cov["concurrent_runs"] = ca
+    for name, r in sorted(ca.items()):
+        if isinstance(r, dict) and r.get("wrong"):
+            ctx.violation({"kind": "oracle-faithful-call", "clause": "%d of %d concurrent Runs of one mg.F value (%s with a context parameter) were handed the context or arguments of another call"
+                           % (r["wrong"], r["calls"], name)}, case=conc[0])
     ctx.assumptions += ["reflect.Type reports NumIn/In/IsVariadic/NumOut/Out as the model's sig record does",
                         "encoding/json prints ints, bools and ASCII strings as Model/FnId.v says (compared byte for byte on every accepted case)"]
